@@ -69,6 +69,12 @@ Theorem C04_satisfiable : release_valid ex_release = true /\ exists m, release_g
 Proof. exact ex_release_ok. Qed.
 Print Assumptions C04_satisfiable.
 
+(* a verbatim raw manifest takes precedence for the id, whatever its bytes (the empty byte string included) *)
+Theorem C04_raw_manifest_precedence : forall (H : bytes -> bytes) r m,
+  r_raw_manifest r = Some m -> rel_compute_hash H r = Some (H m).
+Proof. exact rel_raw_manifest_precedence. Qed.
+Print Assumptions C04_raw_manifest_precedence.
+
 (* ---- cross-model consistency C04 x C16 (proofs/CrossModelDates.v).  The tagger
    line is Rel.format_author = fullname followed by C16's
    Time.author_date_part, whose date text C16_format_date_exact characterises.
